@@ -313,7 +313,7 @@ Definition run_case1 (t : T) : T :=
   (* 8: local buffer *)
   | L [A 8%N; A cap; L ops] =>
     match d_all (fun o => match o with S b => Some (BAppend b) | A z => Some (BAppendInt (unzz z)) | _ => None end) ops with
-    | Some os => S (buf_data (fold_left buf_step os (buf_new (Z.of_N cap))))
+    | Some os => let b := fold_left buf_step os (buf_new (Z.of_N cap)) in L [S (buf_data b); AZ (buf_cap b)]
     | None => bad
     end
   (* 9: hex *)
